@@ -37,7 +37,7 @@ def unrepaired : Fixes := ⟨false, false, false⟩
 def ntzOvfFixed : Fixes := ⟨true, true, false⟩
 def allFixed : Fixes := ⟨true, true, true⟩
 /-- the code of the tree the check runs against (`allFixed` once `fixes/qsort_s-pntz-gap-64.diff` is applied) -/
-def current : Fixes := ntzOvfFixed
+def current : Fixes := allFixed
 
 inductive Fault
   | idx (i : Nat)     -- element index ≥ nmemb dereferenced
